@@ -179,7 +179,7 @@ class Mir:
         return self.locals[l]["ty"]
 
     def local_name(self, l):
-        return self.locals[l].get("name")
+        return self.locals[l].get("name") if 0 <= l < len(self.locals) else None
 
 
 class Body:
@@ -277,6 +277,27 @@ class Unit:
                 continue
             out.append(b)
         return out
+
+    def provided_methods(self, trait_contains):
+        """bodies of the provided (default) methods of the workspace trait whose path contains `trait_contains`"""
+        return [b for b in self.bodies if b.kind == "AssocFn" and b.in_trait and trait_contains in b.in_trait]
+
+    def trait_methods_for(self, trait_contains, self_contains):
+        """{method name: body} as the type whose name contains `self_contains` gets them: its own impl's methods plus
+        the trait's provided methods it does not override (so that moving a body between impl and trait changes nothing)"""
+        out = {}
+        for b in self.provided_methods(trait_contains):
+            out[b.name] = b
+        for b in self.bodies:
+            if b.kind == "AssocFn" and b.impl_trait and trait_contains in b.impl_trait and self_contains in (b.impl_self or ""):
+                out[b.name] = b
+        return out
+
+    def trait_method(self, trait_contains, method, self_contains):
+        b = self.trait_methods_for(trait_contains, self_contains).get(method)
+        if b is None:
+            raise AnchorLost("method %s of %s for %s (neither in the impl nor provided by the trait)" % (method, trait_contains, self_contains))
+        return b
 
     def closures_of(self, body):
         pre = body.path + "::{closure#"
